@@ -19,7 +19,7 @@ type seedPair struct {
 }
 
 func runC04(c *Ctx) {
-	c.res.Rule = "MnemonicToSeed on: all (m,p) in Sigma^<=2 x Sigma^<=1 and Sigma^<=1 x Sigma^<=2 (thorough: Sigma^<=2 x Sigma^<=2) over a 16-letter Unicode probe alphabet (precomposed/decomposed, full-width, long compatibility expansions, half-width kana + voiced mark, reordering marks, Hangul, ligature, 18-char expansion, astral); Sigma^<=3 for one argument with the other fixed; byte-length ladders 0..300 of 'a', U+00E9 and U+3042 runs for each argument (HMAC block / SHA-512 padding boundaries) and lengths around 512 B, 1 KiB, 4 KiB, 64 KiB; every assigned code point whose NFKD differs from itself (5795 non-Hangul; Hangul syllables: all in thorough, every 97th in quick) alone as passphrase and (quick: every second) as mnemonic; combining-mark run probes a+U+0301 x k; valid sentences of all ten languages with stray leading/trailing/doubled white space and changed case; 19 white-space/control/invisible characters (TAB, LF, CR, CRLF, VT, FF, NUL, ESC, DEL, NEL, NBSP, LS, PS, U+3000, ZWSP, ZWJ, BOM, SHY) before, after, around, doubled after and between four cores in either argument; sequential call triples whose arguments concatenate to the same text. Oracle: byte equality with a hand-written PBKDF2-HMAC-SHA512 over CPython-NFKD forms, length 64, fresh slice on every call. distinct_nontrivial = distinct (mnemonic, passphrase) pairs"
+	c.res.Rule = "MnemonicToSeed on: all (m,p) in Sigma^<=2 x Sigma^<=1 and Sigma^<=1 x Sigma^<=2 (thorough: Sigma^<=2 x Sigma^<=2) over a 16-letter Unicode probe alphabet (precomposed/decomposed, full-width, long compatibility expansions, half-width kana + voiced mark, reordering marks, Hangul, ligature, 18-char expansion, astral); Sigma^<=3 for one argument with the other fixed; byte-length ladders 0..300 of 'a', U+00E9 and U+3042 runs for each argument (HMAC block / SHA-512 padding boundaries); runs of 1..140 full-width a and U+3000 (NFKD three times shorter) and 1..12 U+FDFA (eleven times longer) for each argument and lengths around 512 B, 1 KiB, 4 KiB, 64 KiB; every assigned code point whose NFKD differs from itself (5795 non-Hangul; Hangul syllables: all in thorough, every 97th in quick) alone as passphrase and (quick: every second) as mnemonic; combining-mark run probes a+U+0301 x k; valid sentences of all ten languages with stray leading/trailing/doubled white space and changed case; 19 white-space/control/invisible characters (TAB, LF, CR, CRLF, VT, FF, NUL, ESC, DEL, NEL, NBSP, LS, PS, U+3000, ZWSP, ZWJ, BOM, SHY) before, after, around, doubled after and between four cores in either argument; sequential call triples whose arguments concatenate to the same text. Oracle: byte equality with a hand-written PBKDF2-HMAC-SHA512 over CPython-NFKD forms, length 64, fresh slice on every call. distinct_nontrivial = distinct (mnemonic, passphrase) pairs"
 	c.Assume("CPython unicodedata (Unicode 14) NFKD is the standard NFKD for the assigned code points used", "hand-written PBKDF2 cross-checked against OpenSSL via hashlib on every run")
 
 	var pairs []seedPair
@@ -53,6 +53,19 @@ func runC04(c *Ctx) {
 		for k := 0; k*len(unit) <= 300; k++ {
 			s := strings.Repeat(unit, k)
 			pairs = append(pairs, seedPair{s, "", true, "ladder-mnemonic"}, seedPair{"abandon", s, true, "ladder-passphrase"})
+		}
+	}
+	// runs whose NFKD form is shorter (full-width a, U+3000: 3 bytes -> 1) or much longer (U+FDFA: 3 bytes
+	// -> 33) than the typed text: the HMAC block-size decision (key > 128 bytes is hashed first) must be
+	// taken on the normalised bytes, and so must any other length-dependent step
+	for _, unit := range []string{"\uff41", "\u3000", "\ufdfa"} {
+		kmax := 140
+		if unit == "\ufdfa" {
+			kmax = 12
+		}
+		for k := 1; k <= kmax; k++ {
+			s := strings.Repeat(unit, k)
+			pairs = append(pairs, seedPair{s, "", false, "shrinking-or-growing-run-mnemonic"}, seedPair{"abandon", s, false, "shrinking-or-growing-run-passphrase"})
 		}
 	}
 	// lengths around larger powers of two (truncation or chunking at 512 B, 1 KiB, 4 KiB, 64 KiB)
